@@ -51,7 +51,9 @@ theorem read_write (h0 h1 : Header) (b0 b1 : Bool) (es : List (Entry × Bool)) (
     openLog none (slot h0 b0 ++ slot h1 b1 ++ (entryRegion es (Spec.currentBit b0 b1) ++ tail)) =
       .ok ⟨{ bits := (b0, b1), entriesLength := es.length,
               entriesByteLength := (entryRegion es (Spec.currentBit b0 b1)).length },
-            (if b0 == b1 then h0 else h1), [], (dropTrailingPartial es).map (·.1)⟩ :=
+            (if b0 == b1 then h0 else h1),
+            (if tail.length > 0 then [.trunc .oplog (Spec.entriesOffset + (entryRegion es (Spec.currentBit b0 b1)).length)] else []),
+            (dropTrailingPartial es).map (·.1)⟩ :=
   open_both_slots h0 h1 b0 b1 es tail w0 w1 f0 f1 wf htail hne
 
 /-- bitfield pages: the held set after a range update is exact for every index -/
